@@ -279,6 +279,7 @@ type env struct {
 	c        *vlib.Ctx
 	thorough bool
 	verbose  bool
+	sample   bool
 	cache    *cache.Cache
 	ch       *cache.Handle
 	trans    int
